@@ -10,10 +10,8 @@ import (
 	"testing"
 
 	"github.com/gotid/god/internal/verifc01"
-	"github.com/gotid/god/lib/breaker"
+	"github.com/gotid/god/internal/verifc01/grpcerr"
 	"google.golang.org/grpc"
-	gcodes "google.golang.org/grpc/codes"
-	"google.golang.org/grpc/status"
 )
 
 type c01ClientTarget struct {
@@ -24,20 +22,13 @@ type c01ClientTarget struct {
 func (t *c01ClientTarget) Disable(string) { panic("c01 client driver: disable is not part of the integration table") }
 
 func (t *c01ClientTarget) Do(name string, c verifc01.Call) (o verifc01.Obs) {
-	want := status.Error(gcodes.Code(c.N), "c01") // nil for OK
+	want := grpcerr.Want(c) // the row's error value (status / wrapped / plain / context / foreign), nil for OK
 	err := BreakerInterceptor(context.Background(), t.prefix+name, nil, nil, t.cc,
 		func(ctx context.Context, method string, req, reply interface{}, cc *grpc.ClientConn, opts ...grpc.CallOption) error {
 			o.Req++
 			return want
 		})
-	switch {
-	case err == breaker.ErrServiceUnavailable:
-		o.Ret = "unavail"
-	case err != want:
-		o.Ret = fmt.Sprintf("other:%v", err)
-	default:
-		o.Ret = status.Code(err).String()
-	}
+	o.Ret = grpcerr.Label(err, want)
 	return
 }
 
